@@ -156,8 +156,10 @@ theorem siftUp_rep (lt : Nat → Nat → Bool) {n : Nat} : ∀ fuel (s : St) (f 
 `insert_refines` is proved below (`insert_refines_holds`, with the corollary `insert_order_holds`): clearing
 the new node, the path walk (§2), the link step heap-inl.h:139-141 (`link_rep`) and the sift-up loop
 (`siftUp_refines`: the C loop condition is the array model's, each swap is `Heap.swap` by §3).
-`remove_refines` is still only a statement: missing are the unlink / replace steps (heap-inl.h:181-214) as
-`Rep` updates and the sift-down loop matched with `Heap.siftDown`. -/
+`remove_refines` is proved too (`remove_refines_holds`, corollaries `dequeue_refines`,
+`remove_order_holds`): path walk to the last node (§2), unlink (`unlink_rep`), the replace step
+heap-inl.h:196-214 (`replace_rep`), the sift-down loop (`siftDown_refines`: the C's `smallest` is the node at
+`Heap.smallest`, each swap is `Heap.swap`) and the final walk-up (`siftUp_refines`). -/
 
 def insert_refines : Prop :=
   ∀ (ent : Nat → Heap.Ent) (lt : Nat → Nat → Bool) (s : St) (f : Nat → Nat) (n x : Nat),
@@ -308,6 +310,301 @@ theorem insert_order_holds : insert_order_transfer := by
   intro _ ent lt s f n x hlt h hx0 hx hinv
   obtain ⟨f', h1, h2⟩ := insert_refines_holds ent lt s f n x hlt h hx0 hx
   have hinv' : Heap.Inv (toArr ent f' (n + 1)) := by rw [h2]; exact Heap.insert_inv _ _ hinv
+  refine ⟨f', h1, hinv', h1.min, ?_⟩
+  intro j hj
+  have := Heap.min_is_min _ hinv' j (by rw [size_toArr]; exact hj)
+  rwa [g_toArr ent f' hj, g_toArr ent f' (by omega)] at this
+
+/-- the sift-down loop (heap-inl.h:220-229) is `Heap.siftDown` on the level-order array; the node ends at
+the position the array model reports -/
+theorem siftDown_refines (ent : Nat → Heap.Ent) (lt : Nat → Nat → Bool)
+    (hlt : ∀ a b, lt a b = Heap.lt (ent a) (ent b)) {n : Nat} :
+    ∀ fuel (s : St) (f : Nat → Nat) (i : Nat), Rep s f n → i < n → n - i ≤ fuel →
+    ∃ f', Rep (siftDown lt fuel s (f i)) f' n ∧ toArr ent f' n = (Heap.siftDown (toArr ent f n) i).1 ∧
+      f' (Heap.siftDown (toArr ent f n) i).2 = f i ∧ (Heap.siftDown (toArr ent f n) i).2 < n := by
+  intro fuel
+  induction fuel with
+  | zero => intro s f i _ _ h; omega
+  | succ fuel ih =>
+    intro s f i h hi hf
+    have hL := h.left i hi
+    have hR := h.right i hi
+    have hnz := h.nz_iff
+    -- the C's `smallest` is the node at the array model's `smallest`
+    have hsm : (if s.m.right (f i) ≠ 0 ∧ lt (s.m.right (f i))
+          (if s.m.left (f i) ≠ 0 ∧ lt (s.m.left (f i)) (f i) = true then s.m.left (f i) else f i) = true
+        then s.m.right (f i)
+        else (if s.m.left (f i) ≠ 0 ∧ lt (s.m.left (f i)) (f i) = true then s.m.left (f i) else f i)) =
+        f (Heap.smallest (toArr ent f n) i) := by
+      unfold Heap.smallest
+      simp only [size_toArr, hL, hR, hlt, Ne, hnz]
+      by_cases h1 : 2 * i + 1 < n
+      · by_cases h2 : 2 * i + 2 < n
+        · simp only [g_toArr ent f h1, g_toArr ent f h2, g_toArr ent f hi]
+          by_cases c1 : Heap.lt (ent (f (2 * i + 1))) (ent (f i)) = true
+          · simp only [c1, h1, h2, Nat.not_le, and_self, if_true, g_toArr ent f h1]
+            split <;> simp_all
+          · simp only [c1, h1, h2, Nat.not_le, and_false, if_false, true_and, g_toArr ent f hi]
+            simp only [Bool.false_eq_true, if_false, g_toArr ent f hi]
+            split <;> rfl
+        · simp only [g_toArr ent f h1, g_toArr ent f hi, h1, h2, Nat.not_le, true_and, false_and, if_false]
+          split <;> simp_all
+      · have h2 : ¬ 2 * i + 2 < n := by omega
+        simp [h1, h2]
+    unfold siftDown
+    simp only [hsm]
+    rw [Heap.siftDown]
+    have hcases := Heap.smallest_cases (toArr ent f n) i
+    rw [size_toArr] at hcases
+    by_cases hs : Heap.smallest (toArr ent f n) i = i
+    · rw [dif_pos hs, hs, if_pos rfl]
+      exact ⟨f, h, rfl, rfl, hi⟩
+    · have hj : Heap.smallest (toArr ent f n) i < n := by omega
+      have hne : f (Heap.smallest (toArr ent f n) i) ≠ f i := fun e => hs ((h.eq_iff hj).1 e)
+      rw [dif_neg hs, if_neg hne]
+      have hr := swap_rep (i := i) (j := Heap.smallest (toArr ent f n) i) h hj (by omega)
+      have hx : exchange f i (Heap.smallest (toArr ent f n) i) (Heap.smallest (toArr ent f n) i) = f i := by
+        unfold exchange; rw [if_neg hs, if_pos rfl]
+      obtain ⟨f', h1, h2, h3, h4⟩ := ih _ _ (Heap.smallest (toArr ent f n) i) hr hj (by omega)
+      rw [hx] at h1 h3
+      rw [swap_toArr ent f hi hj] at h2 h3 h4
+      exact ⟨f', h1, h2, h3, h4⟩
+
+/-- heap-inl.h:196-206 on the node cells -/
+def replaceCells (m : Mem) (node child : Nat) : Mem :=
+  let m := setLeft m child (m.left node)
+  let m := setRight m child (m.right node)
+  let m := setParent m child (m.parent node)
+  let m := setParentIf m (m.left child) child
+  setParentIf m (m.right child) child
+
+/-- heap-inl.h:196-214 -/
+def replaceStep (s : St) (node child : Nat) : St :=
+  let m := replaceCells s.m node child
+  if m.parent node = 0 then { s with m := m, min := child }
+  else if m.left (m.parent node) = node then { s with m := setLeft m (m.parent node) child }
+  else { s with m := setRight m (m.parent node) child }
+
+theorem replaceCells_left (m : Mem) (node child x : Nat) :
+    (replaceCells m node child).left x = if x = child then m.left node else m.left x := by
+  simp [replaceCells]
+
+theorem replaceCells_right (m : Mem) (node child x : Nat) :
+    (replaceCells m node child).right x = if x = child then m.right node else m.right x := by
+  simp [replaceCells]
+
+theorem replaceCells_parent (m : Mem) (node child x : Nat) :
+    (replaceCells m node child).parent x =
+      if m.right node ≠ 0 ∧ x = m.right node then child
+      else if m.left node ≠ 0 ∧ x = m.left node then child
+      else if x = child then m.parent node else m.parent x := by
+  simp [replaceCells]
+
+/-- the rest of `heap_remove` after the unlink when `child != node`, as the model writes it -/
+theorem remove_unfold (lt : Nat → Nat → Bool) (s : St) (node : Nat) (h0 : s.nelts ≠ 0) :
+    remove lt s node =
+      let max := (walk s (pathLoop s.nelts s.nelts 0 0).1 (pathLoop s.nelts s.nelts 0 0).2 Slot.root Slot.root).2
+      let s1 : St := { s with nelts := s.nelts - 1 }
+      let child := deref s1 max
+      let s2 := store s1 max 0
+      if child = node then (if child = s2.min then { s2 with min := 0 } else s2) else
+      let s3 := replaceStep s2 node child
+      let s4 := siftDown lt (s3.nelts + 1) s3 child
+      siftUp lt (s4.nelts + 1) s4 child := by
+  unfold remove replaceStep replaceCells
+  rw [if_neg h0]
+
+/-- heap-inl.h:181-185: the last node in level order is unlinked -/
+theorem unlink_rep {s : St} {f : Nat → Nat} {n : Nat} (h : Rep s f n) (hn : 0 < n) :
+    Rep (store { s with nelts := s.nelts - 1 } (slotOf f n) 0) (fun k => if k = n - 1 then 0 else f k) (n - 1) := by
+  have hdead := h.dead
+  have hlive := h.live
+  have hne := @Rep.ne s f n h
+  have hcases : slotOf f n = Slot.root ∧ n = 1 ∨
+      slotOf f n = Slot.r (f (n / 2 - 1)) ∧ n ≠ 1 ∧ n % 2 = 1 ∨
+      slotOf f n = Slot.l (f (n / 2 - 1)) ∧ n ≠ 1 ∧ n % 2 = 0 := by
+    unfold slotOf
+    by_cases h1 : n = 1
+    · left; subst h1; simp
+    · have hq : ¬ (n ≤ 1) := by omega
+      rw [if_neg hq]
+      by_cases hodd : n % 2 = 1
+      · right; left; rw [if_pos hodd]; exact ⟨rfl, h1, hodd⟩
+      · right; right; rw [if_neg hodd]; exact ⟨rfl, h1, by omega⟩
+  have hmin := h.min
+  have hnel := h.nelts
+  rcases hcases with ⟨e, h1⟩ | ⟨e, h1, hodd⟩ | ⟨e, h1, hodd⟩ <;>
+  · refine ⟨?_, ?_, ?_, ?_, ?_, ?_, ?_, ?_⟩ <;> (try simp only [e, store])
+    · simp [hnel]
+    · grind
+    · intro i hi; grind
+    · intro i hi; grind
+    · intro i j hi hj; have := h.inj i j; grind
+    · intro i hi; have := h.left i
+      (try simp only [setLeft_left, setRight_left]); grind
+    · intro i hi; have := h.right i
+      (try simp only [setLeft_right, setRight_right]); grind
+    · intro i hi; have := h.parent i
+      (try simp only [setLeft_parent, setRight_parent]); grind
+
+/-- heap-inl.h:196-214: the unlinked node `c` takes the place of the node at position `i` -/
+theorem replace_rep {s : St} {g : Nat → Nat} {n i c : Nat} (h : Rep s g n) (hi : i < n) (hc0 : c ≠ 0)
+    (hc : ∀ k, g k ≠ c) : Rep (replaceStep s (g i) c) (fun k => if k = i then c else g k) n := by
+  have hdead := h.dead
+  have hlive := h.live
+  have hne := @Rep.ne s g n h
+  have hnz := h.nz_iff
+  have hL := h.left i hi
+  have hR := h.right i hi
+  have hP := h.parent i hi
+  have hci := hc i
+  have hpar : (replaceCells s.m (g i) c).parent (g i) = if i = 0 then 0 else g ((i - 1) / 2) := by
+    rw [replaceCells_parent, hL, hR, hP]
+    have := hne hi (b := 2 * i + 1) (by omega)
+    have := hne hi (b := 2 * i + 2) (by omega)
+    simp [*]
+  have hmin := h.min
+  have hnel := h.nelts
+  by_cases h0 : i = 0
+  · have e : replaceStep s (g i) c = { s with m := replaceCells s.m (g i) c, min := c } := by
+      simp only [replaceStep, hpar, if_pos h0, if_true]
+    rw [e]
+    refine ⟨hnel, ?_, ?_, ?_, ?_, ?_, ?_, ?_⟩
+    · simp [h0]
+    · intro k hk; grind
+    · intro k hk; grind
+    · intro a b ha hb; have := h.inj a b; have := hc a; have := hc b; grind
+    · intro k hk; have := h.left k; have := hc k
+      simp only [replaceCells_left]; grind
+    · intro k hk; have := h.right k; have := hc k
+      simp only [replaceCells_right]; grind
+    · intro k hk; have := h.parent k; have := hc k
+      simp only [replaceCells_parent, hL, hR, hP]; grind
+  · have hg : (i - 1) / 2 < n := by omega
+    have hgc := hc ((i - 1) / 2)
+    have hgl : (replaceCells s.m (g i) c).left (g ((i - 1) / 2)) = g (2 * ((i - 1) / 2) + 1) := by
+      rw [replaceCells_left, if_neg hgc, h.left _ hg]
+    have hgnz : g ((i - 1) / 2) ≠ 0 := hlive _ hg
+    rw [if_neg h0] at hpar
+    by_cases hodd : 2 * ((i - 1) / 2) + 1 = i
+    · have e : replaceStep s (g i) c =
+          { s with m := setLeft (replaceCells s.m (g i) c) (g ((i - 1) / 2)) c } := by
+        simp only [replaceStep, hpar, hgl, hodd, if_neg hgnz, if_true]
+      rw [e]
+      refine ⟨hnel, ?_, ?_, ?_, ?_, ?_, ?_, ?_⟩
+      · grind
+      · intro k hk; grind
+      · intro k hk; grind
+      · intro a b ha hb; have := h.inj a b; have := hc a; have := hc b; grind
+      · intro k hk; have := h.left k; have := hc k
+        simp only [setLeft_left, replaceCells_left]; grind
+      · intro k hk; have := h.right k; have := hc k
+        simp only [setLeft_right, replaceCells_right]; grind
+      · intro k hk; have := h.parent k; have := hc k
+        simp only [setLeft_parent, replaceCells_parent, hL, hR, hP]; grind
+    · have hne2 : g (2 * ((i - 1) / 2) + 1) ≠ g i := Ne.symm (hne hi (Ne.symm hodd))
+      have e : replaceStep s (g i) c =
+          { s with m := setRight (replaceCells s.m (g i) c) (g ((i - 1) / 2)) c } := by
+        simp only [replaceStep, hpar, hgl, if_neg hne2, if_neg hgnz]
+      rw [e]
+      refine ⟨hnel, ?_, ?_, ?_, ?_, ?_, ?_, ?_⟩
+      · grind
+      · intro k hk; grind
+      · intro k hk; grind
+      · intro a b ha hb; have := h.inj a b; have := hc a; have := hc b; grind
+      · intro k hk; have := h.left k; have := hc k
+        simp only [setRight_left, replaceCells_left]; grind
+      · intro k hk; have := h.right k; have := hc k
+        simp only [setRight_right, replaceCells_right]; grind
+      · intro k hk; have := h.parent k; have := hc k
+        simp only [setRight_parent, replaceCells_parent, hL, hR, hP]; grind
+
+theorem deref_nelts (s : St) (k : Nat) (sl : Slot) : deref { s with nelts := k } sl = deref s sl := by
+  cases sl <;> rfl
+
+theorem toArr_dropLast (ent : Nat → Heap.Ent) (f : Nat → Nat) (n : Nat) :
+    toArr ent (fun k => if k = n - 1 then 0 else f k) (n - 1) = (toArr ent f n).pop := by
+  apply Array.ext
+  · simp [toArr]
+  · intro k h1 h2
+    have hk : k < n - 1 := by simpa [toArr] using h1
+    simp only [toArr, Array.getElem_pop, List.getElem_toArray, List.getElem_map, List.getElem_range]
+    rw [if_neg (by omega)]
+
+theorem toArr_replace (ent : Nat → Heap.Ent) (f : Nat → Nat) {n i : Nat} (hi : i < n - 1) :
+    toArr ent (fun k => if k = i then f (n - 1) else if k = n - 1 then 0 else f k) (n - 1) =
+      ((toArr ent f n).setIfInBounds i (Heap.g (toArr ent f n) (n - 1))).pop := by
+  rw [g_toArr ent f (by omega)]
+  apply Array.ext
+  · simp [toArr]
+  · intro k h1 h2
+    have hk : k < n - 1 := by simpa [toArr] using h1
+    simp only [toArr, Array.getElem_pop, Array.getElem_setIfInBounds, List.getElem_toArray, List.getElem_map,
+      List.getElem_range]
+    grind
+
+/-- **heap_remove refines `Heap.remove`**: for every represented heap and every member (root, interior,
+leaf, last), the memory after the C statements represents a complete tree with `n - 1` nodes whose
+level-order key array is `Heap.remove` of the array before at the member's position -/
+theorem remove_refines_holds : remove_refines := by
+  intro ent lt s f n i hlt h hi
+  have hnel : s.nelts = n := h.nelts
+  subst hnel
+  have hpr := path_correct_remove h (by omega)
+  have hu := unlink_rep h (by omega)
+  rw [remove_unfold lt s (f i) (by omega)]
+  simp only [hpr.1, deref_nelts, hpr.2]
+  have hsz := size_toArr ent f s.nelts
+  by_cases hl : i = s.nelts - 1
+  · subst hl
+    rw [if_pos rfl]
+    have hmin : f (s.nelts - 1) ≠ (store { s with nelts := s.nelts - 1 } (slotOf f s.nelts) 0).min := by
+      rw [hu.min]
+      by_cases h1 : 0 = s.nelts - 1
+      · rw [if_pos h1]; exact h.live _ hi
+      · rw [if_neg h1]; exact h.ne hi (by omega)
+    rw [if_neg hmin]
+    refine ⟨_, hu, ?_⟩
+    rw [toArr_dropLast, Heap.remove_of_last _ _ (by omega) (by omega)]
+  · have hi' : i < s.nelts - 1 := by omega
+    have hne : f (s.nelts - 1) ≠ f i := h.ne (by omega) (by omega)
+    rw [if_neg hne]
+    have hnode : f i = (fun k => if k = s.nelts - 1 then 0 else f k) i := by simp [hl]
+    have hc0 : f (s.nelts - 1) ≠ 0 := h.live _ (by omega)
+    have hfresh : ∀ k, (fun k => if k = s.nelts - 1 then 0 else f k) k ≠ f (s.nelts - 1) := by
+      intro k; simp only
+      by_cases hk : k = s.nelts - 1
+      · rw [if_pos hk]; exact Ne.symm hc0
+      · rw [if_neg hk]; exact Ne.symm (h.ne (by omega) (Ne.symm hk))
+    have hrep := replace_rep (i := i) hu hi' hc0 hfresh
+    simp only [if_neg hl] at hrep
+    have hn3 := hrep.nelts
+    rw [hn3]
+    have hx : f (s.nelts - 1) = (fun k => if k = i then f (s.nelts - 1) else
+        (fun k => if k = s.nelts - 1 then 0 else f k) k) i := by simp
+    obtain ⟨f3, r3, a3, p3, j3⟩ := siftDown_refines ent lt hlt (s.nelts - 1 + 1) _ _ i hrep hi' (by omega)
+    simp only [if_true] at r3 p3
+    rw [r3.nelts]
+    obtain ⟨f4, r4, a4⟩ := siftUp_refines ent lt hlt (s.nelts - 1 + 1) _ _ _ r3 j3 (by omega)
+    rw [p3] at r4
+    refine ⟨f4, r4, ?_⟩
+    rw [a4, a3, Heap.remove_of_lt _ _ (by omega), toArr_replace ent f hi', hsz]
+
+/-- heap_dequeue = heap_remove of the root -/
+theorem dequeue_refines (ent : Nat → Heap.Ent) (lt : Nat → Nat → Bool) (s : St) (f : Nat → Nat) (n : Nat)
+    (hlt : ∀ a b, lt a b = Heap.lt (ent a) (ent b)) (h : Rep s f n) (hn : 0 < n) :
+    ∃ f', Rep (dequeue lt s) f' (n - 1) ∧ toArr ent f' (n - 1) = Heap.remove (toArr ent f n) 0 := by
+  unfold dequeue; rw [h.min]; exact remove_refines_holds ent lt s f n 0 hlt h hn
+
+/-- heap order and "`heap_min` is a least element" after heap_remove of any member, transferred from
+`Props/C04Heap` -/
+theorem remove_order_holds (ent : Nat → Heap.Ent) (lt : Nat → Nat → Bool) (s : St) (f : Nat → Nat) (n i : Nat)
+    (hlt : ∀ a b, lt a b = Heap.lt (ent a) (ent b)) (h : Rep s f n) (hi : i < n)
+    (hinv : Heap.Inv (toArr ent f n)) :
+    ∃ f', Rep (remove lt s (f i)) f' (n - 1) ∧ Heap.Inv (toArr ent f' (n - 1)) ∧
+      (remove lt s (f i)).min = f' 0 ∧ ∀ j, j < n - 1 → Heap.lt (ent (f' j)) (ent (f' 0)) = false := by
+  obtain ⟨f', h1, h2⟩ := remove_refines_holds ent lt s f n i hlt h hi
+  have hinv' : Heap.Inv (toArr ent f' (n - 1)) := by rw [h2]; exact Heap.remove_inv _ _ hinv
   refine ⟨f', h1, hinv', h1.min, ?_⟩
   intro j hj
   have := Heap.min_is_min _ hinv' j (by rw [size_toArr]; exact hj)
